@@ -1,7 +1,15 @@
-/- Driver handler for text-level debugger sessions (`T09`): the script text is parsed by the
-   command-language model (`Cmd.session`), the resulting commands drive the debugger model. -/
+/- Driver handler for text-level debugger sessions (`T09`).
+
+   M: the debugger model that reads its commands ON DEMAND from (`--command` argument, standard
+      input) — `DbgIO.runLoopIO`; standard input is the world's input, shared with the program's
+      GETC / IN.
+   S: the script text (argument + the first `cut` bytes of standard input) is parsed beforehand by
+      the command-language model (`Cmd.session`), the resulting commands drive the pre-parsed
+      debugger model `Dbg.runLoop` on the rest of standard input — the object of the C09–C16
+      theorems; `Lace.C09IO.preparsed_agrees` says M = S for the sessions generated. -/
 import Driver.DbgH
 import Lace.Model.Cmd.Reader
+import Lace.Model.DebuggerIO
 open Lace Lace.Driver Lace.Dbg Lace.Cmd
 
 namespace Lace.Driver
@@ -35,8 +43,12 @@ def handleT09 (toks : List String) : String :=
                 match parseHex nl with
                 | none => "bad-request"
                 | some nl =>
-                  match takeN (2 * nl) rest with
-                  | some (ls, [arg, stdin]) =>
+                  match (takeN (2 * nl) rest).bind (fun p =>
+                      match p.2 with
+                      | [arg, stdin] => some (p.1, arg, stdin, (none : Option String))
+                      | [arg, stdin, cut] => some (p.1, arg, stdin, some cut)
+                      | _ => none) with
+                  | some (ls, arg, stdin, cutTok) =>
                     let rec pairs : List String → Option (List (List Char × Nat))
                       | [] => some []
                       | a :: b :: r => do
@@ -47,9 +59,14 @@ def handleT09 (toks : List String) : String :=
                       | _ => none
                     let argT : Option (Option (List Char)) :=
                       if arg == "N" then some none else (parseText (arg.drop 1).toString).map some
-                    match pairs ls, argT, parseBytes stdin with
-                    | some ls, some argT, some stdinB =>
-                      let reader := Reader.from argT (stdinB.map UInt8.ofNat)
+                    let cutN : Option Nat := match cutTok with
+                      | none => some 1000000000
+                      | some t => parseHex t
+                    match pairs ls, argT, parseBytes stdin, cutN with
+                    | some ls, some argT, some stdinB, some cutN =>
+                      let scriptB := stdinB.take cutN
+                      let inputB := stdinB.drop cutN
+                      let reader := Reader.from argT (scriptB.map UInt8.ofNat)
                       let sess := Cmd.session reader
                       match sess.ending with
                       | .panic _ => "M panic"
@@ -63,22 +80,32 @@ def handleT09 (toks : List String) : String :=
                         | .panic _ => "M load-failed"
                         | .ok loaded =>
                           let env := fillEnv r
-                          let w : World := { inp := [], outRev := [] }
-                          let d := newDbg loaded (r.breaks.map (BitVec.ofNat 16)) r.cmds
-                          let fmt (head : String) (att : Bool) (d : Dbg) (m : Machine) (w : World) (ex : List Word) : String :=
+                          let fmt (head : String) (att : Bool) (d : Dbg) (m : Machine) (w : World) (ex : List Word)
+                              (nerr : Nat) : String :=
                             let pcs := ex.reverse
                             head ++ " " ++ showRegs m ++ " |" ++ memDiff loaded m ++ " | " ++ charsHex w.output ++ " | " ++
                               toString pcs.length ++ " " ++ hex16 (fnv pcs) ++ " | " ++ toString d.ncmds ++ " | " ++
-                              showBps att d ++ " | " ++ showErr d ++ " | errs=" ++ toString (errorsBefore sess.events d.ncmds)
-                          let line :=
+                              showBps att d ++ " | " ++ showErr d ++ " | errs=" ++ toString nerr
+                          -- S: commands parsed beforehand, program input = what follows the script
+                          let specLine :=
+                            let w : World := { inp := inputB, outRev := [] }
+                            let d := newDbg loaded (r.breaks.map (BitVec.ofNat 16)) r.cmds
                             match runLoop env r.fuel true d loaded w [] with
-                            | .done att d m w ex => fmt "done" att d m w ex
-                            | .exit c att d m w ex => fmt ("exit " ++ toString c) att d m w ex
-                            | .fuel att d m w ex => fmt "fuel" att d m w ex
+                            | .done att d m w ex => fmt "done" att d m w ex (errorsBefore sess.events d.ncmds)
+                            | .exit c att d m w ex => fmt ("exit " ++ toString c) att d m w ex (errorsBefore sess.events d.ncmds)
+                            | .fuel att d m w ex => fmt "fuel" att d m w ex (errorsBefore sess.events d.ncmds)
                             | .panic _ => "panic"
-                          -- the debugger model over the grammar-derived commands is what the properties demand
-                          "M " ++ line ++ " ;; S " ++ line
-                    | _, _, _ => "bad-request"
+                          -- M: commands read on demand from the shared standard input
+                          let modelLine :=
+                            let w : World := { inp := stdinB, outRev := [] }
+                            let d := newDbg loaded (r.breaks.map (BitVec.ofNat 16)) []
+                            match DbgIO.runLoopIO env r.fuel true (DbgIO.Src.from argT) d loaded w [] with
+                            | (s, .done att d m w ex) => fmt "done" att d m w ex s.nerr
+                            | (s, .exit c att d m w ex) => fmt ("exit " ++ toString c) att d m w ex s.nerr
+                            | (s, .fuel att d m w ex) => fmt "fuel" att d m w ex s.nerr
+                            | (_, .panic _) => "panic"
+                          "M " ++ modelLine ++ " ;; S " ++ specLine
+                    | _, _, _, _ => "bad-request"
                   | _ => "bad-request"
               | _, _ => "bad-request"
         | _, _ => "bad-request"
